@@ -48,6 +48,7 @@ C07_DOCS = {
     'refs': 'ver:"3.0"\nr,s\n@e "",""\n@f "x",`u`\n@g,``\n',
     'old': 'ver:"3.0" since:0987-06-05\nd,t,l\n0079-08-24,0099-12-31T23:59:59Z UTC,[0001-01-01]\n0999-12-31,1000-01-01T00:00:00Z UTC,\n',
     'verq': 'ver:"3.0 \\"site\\\\build\\"" a:"x"\nc\n<<ver:"3.0-rc\\"1\\""\nk\n1\n>>\n',
+    'bignum': 'ver:"3.0" big:12345678901234567890 tiny:1.5E-5\nn,q\n18446744073709551615,123456789012345.678ns\n1.2345678901234567E25,9007199254740993\n-9.87654321987e17,1e16\n',
     'fold': 'ver:"2.0"\nt\n2016-10-30T02:30:00+02:00 Berlin\n2016-10-30T02:30:00+01:00 Berlin\n2021-01-15T08:00:00-03:30 St_Johns\n',
 }
 SINGLE_TOO = ('two3', 'crlf3', 'basic2')       # documents also parsed through the single=True entry point
@@ -68,6 +69,7 @@ SCALAR_DOCS = {
     'list': ('3.0', '[1,[N,"x"],{a:1},]'), 'dict': ('3.0', '{a:1 b:"c" d}'), 'bin': ('2.0', 'Bin(text/plain)'),
     'kw': ('3.0', 'NA'), 'inf': ('2.0', '-INF'),
     # the ends of the calendar: conversions to the named zone leave datetime's range
+    'dtfold': ('2.0', '2016-10-30T02:30:00+02:00 Berlin'), 'dtfold2': ('3.0', '2020-11-01T01:30:00-04:00 New_York'),
     'dtmin': ('3.0', '0001-01-01T00:00:00+10:00 Sydney'), 'dtmax': ('2.0', '9999-12-31T23:59:59Z Tokyo'),
 }
 
@@ -700,6 +702,11 @@ def corpus_run(hz, job):
         'jbase': {'meta': {'ver': '3.0', 'dis': 's:x', 'mk': 'm:'}, 'cols': [{'name': 'a'}, {'name': 'b', 'unit': 's:m'}],
                   'rows': [{'a': 'n:1.5 kW', 'b': True}, {'b': 'plain'}, {'a': 5, 'b': 'r:x Dis'}, {'a': 't:2020-07-15T12:00:00-07:00'}, {'a': 't:2020-01-15T12:00:00-07:00', 'b': 'h:12:30'}]},
         'jnest': {'meta': {'ver': '3.0'}, 'cols': [{'name': 'a'}], 'rows': [{'a': ['n:1', {'g': nested}]}, {'a': 'x:hex:dead'}, {'a': 'c:1.5,2.25'}, {'a': 'z:'}]},
+        # the first and second occurrence of a repeated local hour (clocks going back), written with their own offsets; large magnitudes
+        'jfold': {'meta': {'ver': '3.0', 'since': 't:2020-11-01T01:30:00-04:00 New_York'}, 'cols': [{'name': 'a'}, {'name': 'n'}],
+                  'rows': [{'a': 't:2016-10-30T02:30:00+02:00 Berlin', 'n': 'n:12345678901234567890'}, {'a': 't:2016-10-30T02:30:00+01:00 Berlin', 'n': 'n:1.2345678901234567e+25'},
+                           {'a': 't:2020-11-01T01:30:00-04:00 New_York', 'n': 18446744073709551616}, {'a': 't:2020-11-01T01:30:00-05:00 New_York', 'n': 'n:123456789012345.678 ns'},
+                           {'a': 't:2017-04-02T01:45:00+11:00 Lord_Howe', 'n': 'n:-9.87654321987e17'}]},
         'jv2': {'meta': {'ver': '2.0'}, 'cols': [{'name': 'a'}], 'rows': [{'a': 'x:'}, {'a': 'b:text/plain'}, {'a': 'u:http://x'}, {'a': 'd:2020-02-29'}, {'a': 'n:INF'}]},
     }
     for name, tree in trees.items():
